@@ -214,3 +214,17 @@ def admin_variant(rec, path, rng, fail, cnt):
             fail('SensRequestOK', 'shape_after_administration', dict(ctx, got=list(sens.shape), expected=list(exp_sens.shape)))
         elif not interp.close(sens, exp_sens, rtol=1e-6, atol=1e-7):
             fail('Solution', 'sensitivities_after_administration', dict(ctx, got=sens.tolist(), expected=exp_sens.tolist()))
+    # ---- the dosed system: a regimen is set, sensitivities are requested and then requested AGAIN for another subset while
+    # they are on (every request builds a new solver): what is solved is the system WITH the doses the model reports
+    with warnings.catch_warnings():
+        warnings.simplefilter('error', RuntimeWarning)
+        model.set_dosing_regimen(1.5, start=0.2, duration=0.3, period=0.9, num=2)
+        model.enable_sensitivities(True)
+        model.enable_sensitivities(True, [pub[subset[0] - 1]])
+        refsim.clear_events()
+        model.simulate(values.copy(), times.copy())
+    want = sorted(refsim.protocol_events(model.dosing_regimen()))
+    runs = [sorted(e['protocol']) for e in refsim.EVENTS if e['e'] == 'Run']
+    cnt['evaluations'] = cnt.get('evaluations', 0) + 1
+    if not want or runs != [want]:
+        fail('Solution', 'doses_not_in_the_solved_system_after_a_second_sensitivity_request', dict(solved_with=runs, reported=want))
